@@ -254,6 +254,15 @@ func (serv *ExchangeServer[H]) handleRangeRequest(
 			return nil, header.ErrNotFound
 		}
 
+		// the end of the range is not above the head, so it is below the tail:
+		// nothing to serve and no reason to walk the chain down from the head
+		if to-1 <= head.Height() {
+			span.SetStatus(codes.Error, header.ErrNotFound.Error())
+			log.Debugw("server: requested headers already pruned", "from", from, "to", to)
+			serv.metrics.rangeServed(ctx, time.Since(startTime), to-from, true)
+			return nil, header.ErrNotFound
+		}
+
 		log.Debugw("server: serving partial range",
 			"prevMaxHeight", to,
 			"newMaxHeight", head.Height()+1,
